@@ -29,11 +29,11 @@ def run_property(prop, a, seed, t0):
     driver.PROP_MODULES[prop] = meta["modules"]
     contracts = driver.load_contracts(prop)
     if a.only:
-        contracts = [c for c in contracts if a.only in c.qualname]
+        contracts = [c for c in contracts if a.only in c.name]
     if not contracts:
         print(f"CHECKER-CRASH property={prop} zero units")
         return 3
-    jobs = [(prop, (c.module, c.qualname), a.tier, seed) for c in contracts]
+    jobs = [(prop, (c.module, c.name), a.tier, seed) for c in contracts]
     ctx = mp.get_context("fork")
     with ctx.Pool(min(a.jobs, len(jobs))) as pool:
         results = pool.map(driver._run_one, jobs, chunksize=1)
@@ -57,6 +57,9 @@ def run_property(prop, a, seed, t0):
         for u in r["unsupported"]:
             undecided.append((r["unit"], "unsupported: " + u))
         for vc in r["vcs"]:
+            tags = (vc.get("info") or {}).get("props")
+            if tags is not None and prop not in tags:
+                continue
             key = (r["unit"], vc["name"])
             (covers if vc["kind"] == "cover" else obligations).setdefault(key, []).append(vc)
     failed = []
